@@ -324,6 +324,11 @@ func (s *Stream) ReceiveFrame(ctx context.Context) ([]byte, error) {
 		if s.gcm != nil && s.encrypted {
 			return nil, fmt.Errorf("empty frame on encrypted stream")
 		}
+		// Track header for AAD digest calculation (the sender digests it too)
+		if s.recvDigest != nil && s.finalRecvDigest == nil {
+			s.recvDigest.Write(header)
+			s.recvDigestWritten = true
+		}
 		return []byte{}, nil
 	}
 
